@@ -81,3 +81,14 @@ def pair_kw(a, b, key=0, priority=0):
 
 def ident(x):
     return x
+
+
+def scaled(k, gated=False):
+    """two functions made by this factory have the same __name__ (and the same extra arguments: none) and differ only in
+    what they compute -- like two lambdas"""
+    def apply(x):
+        if gated:
+            STARTED.append(x)
+            gate(x).wait(30)
+        return x * k
+    return apply
